@@ -269,6 +269,24 @@ func schedules(t *testing.T, cold bool) {
 			deepen(t, f)
 			deep = true
 		}
+		// values a caller may build by hand but no decoder produces: explicit
+		// class-0 entries in the GDEF class tables (class 0 means "not
+		// listed", so encoders skip them - they must not remove them from the
+		// caller's maps)
+		explicitZero := false
+		if f.Gdef != nil && rapid.IntRange(0, 2).Draw(t, "explicitClassZero") == 0 {
+			for _, cd := range []map[glyph.ID]uint16{f.Gdef.GlyphClass, f.Gdef.MarkAttachClass} {
+				if cd == nil {
+					continue
+				}
+				for gid := 0; gid < f.NumGlyphs(); gid++ {
+					if _, ok := cd[glyph.ID(gid)]; !ok && rapid.IntRange(0, 2).Draw(t, "zeroEntry") == 0 {
+						cd[glyph.ID(gid)] = 0
+						explicitZero = true
+					}
+				}
+			}
+		}
 		// half of the shared fonts are obtained the way applications obtain
 		// them, by reading a file: the reader builds its own closures, lazily
 		// decoded tables and maps (e.g. the FDSelect function of a CID-keyed
@@ -398,6 +416,6 @@ func schedules(t *testing.T, cold bool) {
 			}
 		}
 		stats.CaseIn(sub, stats.Hash(hist.String()), writers >= 2, func() string { return hist.String() },
-			fmt.Sprintf("goroutines-%d", ng), fmt.Sprintf("gomaxprocs-%d", procs), "kind-"+c.Kind.String(), fmt.Sprintf("deep-nesting-%v", deep), fmt.Sprintf("read-from-file-%v", fromFile))
+			fmt.Sprintf("goroutines-%d", ng), fmt.Sprintf("gomaxprocs-%d", procs), "kind-"+c.Kind.String(), fmt.Sprintf("deep-nesting-%v", deep), fmt.Sprintf("read-from-file-%v", fromFile), fmt.Sprintf("explicit-class-zero-%v", explicitZero && !fromFile))
 	})
 }
